@@ -304,9 +304,12 @@ fn run(args: &[String]) -> i32 {
     let mut fuel: Vec<Vec<u8>> = if arg_flag(args, "--fuel") { vec![format!("rule a {{condition: {}1{} == 1 }} rule b {{condition: true}}", "f(".repeat(18), ")".repeat(18)).into_bytes()] } else { vec![] };
     // one source of megabytes on every run: the parser's fuel is per file, a long list of rules must not exhaust it
     {
-        let nrules = arg_u64(args, "--big-rules", 100000) as usize;
+        let nrules = arg_u64(args, "--big-rules", 40000) as usize;
         let mut big = String::with_capacity(nrules * 40);
-        for i in 0..nrules { big.push_str(&format!("rule big_{} {{ condition: true }}\n", i)); if i % 1000 == 999 { big.push_str("// a thousand more\n"); } }
+        for i in 0..nrules {
+            big.push_str(&format!("rule big_{} : t1 {{ meta: n = {} strings: $a = \"x{}\" condition: $a at {} and filesize > 10 or m.f({}) == 1 }}\n", i, i, i, i, i));
+            if i % 1000 == 999 { big.push_str("// a thousand more\n"); }
+        }
         let src = big.into_bytes();
         let t0 = std::time::Instant::now();
         let raw = catch(AssertUnwindSafe(|| Parser::new(&src).collect::<Vec<Event>>())).unwrap_or_default();
@@ -319,7 +322,7 @@ fn run(args: &[String]) -> i32 {
         stats.add("big_source_bytes", src.len() as u64); stats.add("big_source_parse_ms", t0.elapsed().as_millis() as u64);
         let case = format!("mkCase false {} None None {} {} None None [] true true (Some ({}, {}, {}, {}, {}))", src.len(), coq_bool(covered == src.len()), coq_bool(root_ok),
             covered, nrules, cst_rules, ast_rules, ast_errors);
-        let replay = format!("{{\"stream\":\"big_source\",\"rules\":{},\"bytes\":{},\"covered\":{},\"cst_rules\":{},\"ast_rules\":{},\"ast_errors\":{},\"how\":\"{} lines `rule big_<i> {{ condition: true }}`, a comment line after every 1000\"}}",
+        let replay = format!("{{\"stream\":\"big_source\",\"rules\":{},\"bytes\":{},\"covered\":{},\"cst_rules\":{},\"ast_rules\":{},\"ast_errors\":{},\"how\":\"{} lines `rule big_<i> : t1 {{ meta: .. strings: .. condition: $a at <i> and filesize > 10 or m.f(<i>) == 1 }}`, a comment line after every 1000\"}}",
             nrules, src.len(), covered, cst_rules, ast_rules, ast_errors, nrules);
         shards.push(case, replay);
     }
